@@ -100,12 +100,24 @@ func collect(ms *yang.Modules) []*node {
 	return out
 }
 
+// defRoot is the module or submodule whose text the start node stands in. An implied case is not
+// written anywhere: it stands where the shorthand member it wraps is written (taken from the
+// member, not from the parent the library gave the case it made up).
+func defRoot(start *yang.Entry) *yang.Module {
+	if start.Kind == yang.CaseEntry && start.Node != nil && start.Node.Statement() != nil && start.Node.Statement().Keyword != "case" {
+		if m := start.Dir[start.Name]; m != nil && m.Node != nil {
+			return yang.RootNode(m.Node)
+		}
+	}
+	return yang.RootNode(start.Node)
+}
+
 // denotes: the module that defines the start node means the target's tree (and not another revision
 // of the same module) by the prefix prefixesOf gives: itself under its own prefix; under an import
 // prefix the revision the import pins with revision-date, else the one registered under the bare
 // name.
 func denotes(ms *yang.Modules, start *yang.Entry, t *node) bool {
-	root := yang.RootNode(start.Node)
+	root := defRoot(start)
 	if root.BelongsTo != nil && root.BelongsTo.Name == t.tree {
 		return ms.Modules[t.tree] == t.mod
 	}
@@ -130,7 +142,7 @@ func prefixesOf(start *yang.Entry) map[string]string {
 	if start.Node == nil {
 		return nil
 	}
-	root := yang.RootNode(start.Node)
+	root := defRoot(start)
 	if root == nil {
 		return nil
 	}
